@@ -95,6 +95,21 @@ def nan_norm(j):
     return j
 
 
+def approx_equal(a, b, tol=1e-9):
+    if isinstance(a, dict) and isinstance(b, dict) and a.get("t") == "q" and b.get("t") == "q":
+        if a["bits"] == b["bits"]:
+            return a.get("unit") == b.get("unit")
+        if "nan" in (a["bits"], b["bits"]):
+            return False
+        x, y = bits_to_float(a["bits"]), bits_to_float(b["bits"])
+        return a.get("unit") == b.get("unit") and abs(x - y) <= tol * max(abs(x), abs(y))
+    if isinstance(a, dict) and isinstance(b, dict):
+        return a.keys() == b.keys() and all(approx_equal(a[k], b[k], tol) for k in a)
+    if isinstance(a, list) and isinstance(b, list):
+        return len(a) == len(b) and all(approx_equal(x, y, tol) for x, y in zip(a, b))
+    return a == b
+
+
 def run_program(sh, w, base, rng, k, kn=0):
     if rng.random() < 0.25:
         stmts, g = R.gen_scope_program(rng, f"t{k}x")
@@ -242,7 +257,9 @@ def run_miri(sh, spec):
         for name, n in r.get("opcodes") or []:
             sh.count_in("opcodes_executed_under_miri", name, n)
         got, exp = nan_norm(norm_value(r.get("value"))), nan_norm(to_json_value(want))
-        if got != exp or (r.get("prints") or []) != m.prints:
+        # Miri deliberately perturbs the last bits of non-exact float intrinsics (powf for `sqr`, ...): compare numbers
+        # with a relative tolerance here, structure and everything else exactly
+        if not approx_equal(got, exp) or (r.get("prints") or []) != m.prints:
             sh.violation(dict(case, expected={"value": exp, "prints": m.prints}, signature="miri value"),
                          f"(under Miri) value {json.dumps(got)[:200]} / prints {r.get('prints')} but the source means "
                          f"{json.dumps(exp)[:200]} / {m.prints}\n  " + "\n  ".join(texts)[:1500])
